@@ -892,7 +892,10 @@ def judge_dump(blk, drv, nfoff):
     rscore = H[0][2] if H else "?"
     info = {"final": final, "frames": cur, "entries": int(head[6]), "hyp": unhex(rh) if H else None, "nseg": len(X),
             "nullsegs": sum(1 for x in X if unhex(x[1]) == "(NULL)"),
-            "leading_null": bool(X) and unhex(X[0][1]) == "(NULL)"}
+            "leading_null": bool(X) and unhex(X[0][1]) == "(NULL)",
+            # C03: how far before the last frame searched the segmentation ends (the tiling predicate bounds it by
+            # `ef < frames searched`; it does not demand that the last segment reaches the last frame)
+            "last_ef_gap": (cur - 1 - max(int(x[3]) for x in X)) if X and cur > 0 else None}
     g = lambda k, i=0: (drv.get(k) or ["?"] * (i + 1))[i]
     if int(head[6]) == 0:
         # history table still empty (result requested before the first decoder_start_utt after a grammar load)
@@ -939,6 +942,16 @@ def judge_dump(blk, drv, nfoff):
         if g("sum") != "1":
             p3.append(("segment scores do not add up to the reported path score", True,
                        {"score": rscore, "segments": [(unhex(x[1]), int(x[4]), int(x[5]), int(x[6])) for x in X]}))
+    if X and cur > 0:
+        # Props/C03End.lean (C03_segmentation_ends_at_last_exit_frame) evaluated on the implementation: the last
+        # word/filler segment ends in the frame of the last entry of the dumped history table (-1: markers only)
+        E = [l.split() for l in blk if l.startswith("E ")]
+        wends = [int(x[3]) for x in X if unhex(x[1]) != "(NULL)"]
+        if E and E[-1][2] != "missing":
+            info["end_rule_checked"] = True
+            if (max(wends) if wends else -1) != int(E[-1][3]):
+                p3.append(("the last word/filler segment does not end in the frame of the last history-table entry", False,
+                           {"last_entry (idx link frame score pred ..)": E[-1], "word_segment_ends": wends[-4:], "frames_searched": cur}))
     if g("hypseg") != "1":
         d = ("hypothesis string is not the base forms of the non-filler segment words", True,
              {"hyp": unhex(rh), "segments": [unhex(x[1]) for x in X]})
@@ -1730,6 +1743,8 @@ def run_check(c, prop):
     reruns = {}
     distinct = set()
     small_final = {}
+    end_gap = {"final": {"results": 0, "last_segment_ends_at_last_frame": 0, "ends_earlier": 0, "max_gap_frames": 0},
+               "partial": {"results": 0, "last_segment_ends_at_last_frame": 0, "ends_earlier": 0, "max_gap_frames": 0}}
     jsgf_oracle = {}
     branches = {}
     all_ok = {"corr": True, "wf": True, "oracle": True, "crash": True}
@@ -1758,6 +1773,18 @@ def run_check(c, prop):
             for b in inf.get("branches", []):
                 if b:
                     branches[b] = branches.get(b, 0) + 1
+            if inf.get("end_rule_checked"):
+                end_gap["results_on_which_the_end_rule_of_Props/C03End_was_evaluated (last word/filler end = frame of the last table entry)"] = \
+                    end_gap.get("results_on_which_the_end_rule_of_Props/C03End_was_evaluated (last word/filler end = frame of the last table entry)", 0) + 1
+            if inf.get("last_ef_gap") is not None:
+                eg = end_gap["final" if inf["final"] else "partial"]
+                eg["results"] += 1
+                eg["last_segment_ends_at_last_frame" if inf["last_ef_gap"] == 0 else "ends_earlier"] += 1
+                eg["max_gap_frames"] = max(eg["max_gap_frames"], inf["last_ef_gap"])
+                if inf["last_ef_gap"] > 0 and "first_witness" not in eg:
+                    eg["first_witness"] = {"case": tag, "dump": inf.get("tag"), "frames_searched": inf["frames"],
+                                           "last_segment_ends_at": inf["frames"] - 1 - inf["last_ef_gap"], "hyp": inf["hyp"],
+                                           "grammar": cs["units"][0]["grammar"]["text"][:160], "config": cs["config"]}
             if inf["final"] and 0 <= inf["frames"] <= 5:
                 small_final[inf["frames"]] = small_final.get(inf["frames"], 0) + 1
             if inf["frames"] == 0:
@@ -1838,6 +1865,8 @@ def run_check(c, prop):
                   "reruns_on_plain_flavour_by_reason (library stopped under asserts/UBSan for a reason owned by C09/C18)": reruns,
                   "dumps_judged_by_the_JSGF_text_oracle (Lean model of C05, configured rule)": jsgf_oracle,
                   "final_results_by_frames_searched_0_to_5": {str(k): small_final.get(k, 0) for k in range(6)},
+                  "end_of_the_last_segment_vs_last_frame_searched (measured; SegsTile bounds it, nothing forces equality: "
+                  "fsg_search_find_exit takes the last frame that HAS a word exit)": end_gap,
                   "findExit_branches_hit (dumps)": branches,
                   "findExit_branches_never_hit": [b for b in ALL_BRANCHES if b not in branches],
                   "acoustic_models": stats.get("model", {}), "polling_calls": stats.get("polls", {}), "audio_kinds": stats["audio"], "grammar_kinds": stats["grammar"], "grammar_features": stats["features"],
